@@ -13,6 +13,10 @@ CHECKS = {
    technique="bounded exhaustive enumeration (stateless choice-tree explorer E1): full cross product metric x -x x output type, plus -r/-q/-b/-agg variants, through the real driver",
    text="Every cell of (70 metrics + 28 diagrams) x (19 -x values + default) x output types (quick: csv/text/plot on one dataset shape; thorough: all 8 types on 4 shapes incl. single time, single location, an all-missing slice) and a variant grid (-r, -q, 8 bin types, 16 aggregators) is executed in-process through verif.driver.run; each outcome is classified ok / SystemExit-with-message / crash, and any crash is a violation keyed by crash site. The grid is the property's own quantifier, so within the generated datasets the verdict is exhaustive.",
    note="trusts: the generated small datasets are representative of 'well-formed'; plots are written with -f (no interactive window); cartopy backgrounds are not installed"),
+ "C18": dict(level="model_checking", design="5/C18", e2=True,
+   technique="explicit-state breadth-first search (E2) over the real Data object to a fixpoint, canonical state = object-graph fingerprint incl. aliasing partition; every transition compared with a freshly built dataset and the reference dataset model; merges validated by depth-1 bisimulation",
+   text="The real verif.data.Data object is driven by get_scores request events on 2-input 2x2x2 partly-missing datasets in four configurations (plain, -obsrange, one input without observations, climatology). Quick: fixpoint over a 12-request colliding menu (4096 states / 49152 transitions) plus 8-request menus for the other configurations, all histories of length <=2 over a 40-request menu, and whole commands repeated in-process and in fresh subprocesses under 3 hash seeds. Thorough: 16-request fixpoint (65536 states), 12-request menus for the other configurations, length <=2 over 108 requests and length <=3 over 40. Reaching the fixpoint means the verdict covers request histories of any length over the menu. Invariants: answer == fresh dataset's answer == reference model's answer; arrays returned earlier never change; input objects never change.",
+   note="trusts: the canonical form (validated by bisimulation on merges: first 1000 in quick, all for menus <=12 in thorough); menus rather than all possible requests; MemInput subclass of verif.input.Input as the input driver"),
 }
 
 def main():
